@@ -48,7 +48,11 @@ def r1_address_table(cx):
         consts = [x[1] for x in o if x[0] == "const" and isinstance(x[1], int) and not isinstance(x[1], bool) and x[1] not in (0, 1)]
         from_task = any(x[0] == "call" and call_is(b.term(x[1]), r"recv$") for x in o)
         fields = {x[1] for x in o if x[0] == "field"}
-        ok_f = fields <= {"input", "index", "0", "1", "2"}
+        # no state of the writer itself on the way (its channel excepted); fields of the task, or of a value a helper packs the
+        # task's parts into, are fine
+        st_ = F.struct("clusterwriter::ClusterWriter")
+        own = {fl["name"] for fl in (st_ or {}).get("fields", [])} - {"input"}
+        ok_f = not (fields & own)
         return from_task and not bad_calls and not consts and ok_f, "derives from the received task only (calls %s, fields %s)" % (bad_calls or "recv/into_usize", sorted(fields))
     ok1, m1 = only_task(idx[0][1]["args"][1], "index")
     cx.ob("R1", "R1/slot-index-from-task", ok1, f, "cluster_addresses[idx]: idx %s" % m1, ln=idx[0][1].get("ln"))
